@@ -30,7 +30,7 @@ Theorem C10_nested_restarts : forall st n limit body xs,
 Proof. exact ev1_nested. Qed.
 
 (** loops inside whole pipelines: C01_transparency covers PReplay / PIterate / ONested, and
-    bodies that join with a side input defined outside the loop ([OJoinSide]: every round may
+    bodies that join with a side input defined outside the loop ([OJoinSide] / [OJoinSideL]: every round may
     see another distribution of the cached side input) *)
 Theorem C10_in_pipelines : forall (p : pipe) (d : dist), dexec p d -> Permutation (flat d) (denote p).
 Proof. exact dexec_sound. Qed.
